@@ -278,6 +278,16 @@ func (m *gmachine) exec(ev map[string]any) {
 				}
 			}
 		}
+		{
+			// a node whose contact tree reaches one person object twice: the copy has the same content
+			helpdesk := &sbom.Person{Name: "helpdesk"}
+			team := &sbom.Person{Name: "team", Contacts: []*sbom.Person{helpdesk}}
+			n := &sbom.Node{Id: "shared", Suppliers: []*sbom.Person{{Name: "org", Contacts: []*sbom.Person{helpdesk, team}}}}
+			c := n.Copy()
+			res = append(res, map[string]any{"kind": "node-shared-contact", "content": same(n.ProtoReflect(), c.ProtoReflect()), "equal": n.Equal(c) && c.Equal(n), "shared": shared(n, c)})
+			lc := (&sbom.NodeList{Nodes: []*sbom.Node{n}}).Copy()
+			res = append(res, map[string]any{"kind": "list-shared-contact", "content": len(lc.Nodes) == 1 && same(n.ProtoReflect(), lc.Nodes[0].ProtoReflect()), "equal": true, "shared": false})
+		}
 		if len(a.Edges) > 0 {
 			e := a.Edges[k%len(a.Edges)]
 			c := e.Copy()
@@ -302,6 +312,11 @@ func (m *gmachine) exec(ev map[string]any) {
 		}
 	case "Match":
 		p := proj.ToNode(obj(ev, "p"))
+		if k, ok := ev["self"]; ok && len(a.Nodes) > 0 {
+			// the probe is an element of the list itself (the same object, not a copy of it)
+			p = a.Nodes[int(k.(float64))%len(a.Nodes)]
+			ev["p"] = proj.Node(p)
+		}
 		n, err := a.GetMatchingNode(p)
 		switch {
 		case err != nil && n != nil:
